@@ -52,6 +52,21 @@ theorem C08_function_call_sites (env : Env) (name : FunctionName) (args : List (
   · exact hs
   · exact absurd h (callFunction_arity env name args s ha hs)
 
+/-- the residue site `map.values.get(key).unwrap()`: in a map whose keys and values are aligned (what every loader
+    builds) each of its keys is found - the lookup can only fail on a `PV` that no loader produces -/
+theorem C08_map_lookup_total : ∀ (ks : List (Path × Str)) (vs : List PV), ks.length ≤ vs.length →
+    ∀ p k, (p, k) ∈ ks → (PV.lookupKV ks vs k).isSome = true
+  | [], _, _, p, k, h => by cases h
+  | (p0, k0) :: ks, [], hl, _, _, _ => by simp at hl
+  | (p0, k0) :: ks, v :: vs, hl, p, k, h => by
+    unfold PV.lookupKV
+    by_cases hk : k0 = k
+    · simp [hk]
+    · simp only [hk, ↓reduceIte]
+      rcases List.mem_cons.mp h with h | h
+      · cases h; exact absurd rfl hk
+      · exact C08_map_lookup_total ks vs (by simpa using hl) p k h
+
 /-- non-vacuity: a concrete rules file with a filter, a `keys` filter, a function call, a unary and a binary clause
     satisfies the hypothesis -/
 example : (RulesFile.wf
